@@ -23,16 +23,20 @@ fn rand_rr(r: &mut Rng, names: &[Vec<Vec<u8>>]) -> ResourceRecord<'static> {
     // every class a record can have (IN mostly; CS, CH, HS and NONE are registrable and askable like it)
     let class = if r.chance(1, 5) { *r.pick(&[CLASS::CH, CLASS::CS, CLASS::HS, CLASS::NONE]) } else { CLASS::IN };
     let rdata = match r.below(10) {
-        9 => RData::NULL(10, NULL::new(&[7, 7]).unwrap()),
+        // (records of one owner that differ only INSIDE their RDATA are different records of the store: opaque data, the
+        // text of a TXT - a repeated key with another value, a value that is not UTF-8, the order of the strings -, the
+        // priority and weight of an SRV, one letter of an HINFO)
+        9 => RData::NULL(10, NULL::new(&[7, 7, r.below(3) as u8][..2 + r.below(2) as usize]).unwrap().into_owned()),
         // shared records: a service type pointing at an instance
         5 => RData::PTR(PTR(mk_name(&r.pick(names)[..]))),
         6 => RData::CNAME(CNAME(mk_name(&r.pick(names)[..]))),
         7 => RData::NS(NS(mk_name(&r.pick(names)[..]))),
-        8 => RData::HINFO(HINFO { cpu: crate::gen::mk_cs(b"c"), os: crate::gen::mk_cs(b"o") }),
+        8 => RData::HINFO(HINFO { cpu: crate::gen::mk_cs(if r.chance(1, 2) { b"c" } else { b"C" }), os: crate::gen::mk_cs(if r.chance(1, 2) { b"o" } else { b"o2" }) }),
         0 | 1 => RData::A(A { address: r.below(3) as u32 }),
         2 => RData::AAAA(AAAA { address: r.below(2) as u128 }),
-        3 => RData::SRV(SRV { priority: 0, weight: 0, port: 80 + r.below(2) as u16, target: mk_name(&r.pick(names)[..]) }),
-        4 => RData::TXT(TXT::new().with_string("k=v").unwrap()),
+        3 => RData::SRV(SRV { priority: r.below(2) as u16, weight: if r.chance(1, 4) { 5 } else { 0 }, port: 80 + r.below(2) as u16, target: mk_name(&r.pick(names)[..]) }),
+        4 => { let variants: [&[&[u8]]; 10] = [&[b"k=v"], &[b"k=v"], &[b"k=w"], &[b"k=1", b"k=2"], &[b"k=1", b"k=3"], &[b"name=caf\xe9"], &[b"name=caf\xe8"], &[b"a=1", b"b=2"], &[b"b=2", b"a=1"], &[b"k=v", b""]];
+               let mut t = TXT::new(); for x in *r.pick(&variants) { t.add_char_string(crate::gen::mk_cs(x)); } RData::TXT(t) }
         _ => RData::PTR(PTR(mk_name(&r.pick(names)[..]))),
     };
     ResourceRecord::new(name, class, *r.pick(&[0u32, 1, 120, 4500]), rdata).with_cache_flush(r.chance(1, 4))
